@@ -150,6 +150,44 @@ for k, (a, w) in sorted(ral_fields.items()):
     out.append("(define-fun ral_off_%s () Int %d)" % (k, a))
     out.append("(define-fun ral_len_%s () Int %d)" % (k, w))
 
+# ---------------- attest-token payload layout: token_bridge.ral:attestToken ----------------
+tb = read("alephium/contracts/token_bridge/token_bridge.ral")
+m = re.search(r"pub fn attestToken\((.*?)\n    \}", tb, re.S)
+if not m: die("token_bridge.ral: attestToken not found")
+at = m.group(1)
+sizes = {}
+for nm, sz in re.findall(r"assert!\(size!\((\w+)\)\s*==\s*(\d+)", at):
+    sizes[nm] = int(sz)
+pm = re.search(r"let payload\s*=\s*(.*?)\n\s*\n", at, re.S)
+if not pm: die("token_bridge.ral: attestToken payload expression not found")
+parts = [x.strip() for x in pm.group(1).replace("\n", " ").split("++")]
+conv = {"u256To1Byte!": 1, "u256To2Byte!": 2, "u256To4Byte!": 4, "u256To8Byte!": 8, "u256To32Byte!": 32}
+off = 0
+att = {}
+for part in parts:
+    mm = re.match(r"(u256To\d+Byte!)\((\w+)\)$", part)
+    if part == "PayloadId.AttestToken":
+        w, key = 1, "payloadId"
+    elif mm and mm.group(1) in conv:
+        w, key = conv[mm.group(1)], mm.group(2)
+    elif part in sizes:
+        w, key = sizes[part], part
+    else:
+        die("token_bridge.ral: cannot size attest payload part %r" % part)
+    att[key] = (off, w)
+    off += w
+for k in ("payloadId", "localTokenId", "localChainId", "decimals", "symbol", "name"):
+    if k not in att: die("token_bridge.ral: attest payload part %s missing" % k)
+pid = re.search(r"enum PayloadId\s*\{(.*?)\}", read("alephium/contracts/token_bridge/token_bridge_constants.ral"), re.S)
+aid = re.search(r"AttestToken\s*=\s*#([0-9a-fA-F]+)", pid.group(1)) if pid else None
+if not aid: die("token_bridge_constants.ral: PayloadId.AttestToken not found")
+out.append("; @block xlang_attest")
+out.append("(define-fun ral_attest_size () Int %d)" % off)
+out.append("(define-fun ral_attest_id () Int %d)" % int(aid.group(1), 16))
+for k, (a, w) in sorted(att.items()):
+    out.append("(define-fun ral_attest_off_%s () Int %d)" % (k, a))
+    out.append("(define-fun ral_attest_len_%s () Int %d)" % (k, w))
+
 # ---------------- encBody: the body layout as a spec function, built from the Solidity table ----------------
 # (definitional axioms; the Ralph table is compared with it by lemma offset_tables_agree)
 args = [("ts","Int","timestamp"),("no","Int","nonce"),("ec","Int","emitterChain"),("tc","Int","targetChain"),
